@@ -16,10 +16,10 @@ Batch  == JsonDeserialize(IOEnv.TRACE_FILE)
 Traces == Batch.traces
 
 VARIABLES tid, l, co, gp, held, nput, nback, mvis, tow, disp, rres, truth,
-          sreg, sfw, sloc, sfail, sarr, errs, fin
+          sreg, sfw, sloc, sfail, sarr, snamed, scn, scanc, errs, fin
 
 vars == <<tid, l, co, gp, held, nput, nback, mvis, tow, disp, rres, truth,
-          sreg, sfw, sloc, sfail, sarr, errs, fin>>
+          sreg, sfw, sloc, sfail, sarr, snamed, scn, scanc, errs, fin>>
 
 T         == Traces[tid]
 Ev        == T.events
@@ -42,53 +42,68 @@ Init ==
   /\ tow = {} /\ disp = {} /\ rres = [u \in Uids |-> {}]
   /\ truth = [u \in Uids |-> "none"]
   /\ sreg = {} /\ sfw = [u \in Uids |-> 0] /\ sloc = {} /\ sfail = {} /\ sarr = {}
+  /\ snamed = {} /\ scn = {} /\ scanc = [u \in Uids |-> 0]
   /\ errs = {} /\ fin = FALSE
 
 (* ---- scheduler hand-off -------------------------------------------------- *)
 \* must go through the raptor master first
 Needs(u) == Rq(u).rid # "none" /\ ~Rq(u).worker /\ ~Rq(u).seen
 
+\* snamed: named by some cancel request; scn: named while it was kept for its
+\* master; scanc: times advanced CANCELED
 SchedStep(e) ==
-  CASE e.ev = "SArrive" ->
-         /\ sarr' = sarr \cup SeqSet(e.uids)
-         /\ errs' = errs
-         /\ UNCHANGED <<sreg, sfw, sloc, sfail>>
-    [] e.ev = "SReg" ->
-         /\ sreg' = sreg \cup {e.queue} /\ errs' = errs
-         /\ UNCHANGED <<sfw, sloc, sfail, sarr>>
-    [] e.ev = "SUnreg" ->
-         /\ sreg' = sreg \ {e.queue} /\ errs' = errs
-         /\ UNCHANGED <<sfw, sloc, sfail, sarr>>
-    [] e.ev = "SFwd" ->
-         LET us == SeqSet(e.uids) IN
-         /\ sfw' = [u \in Uids |-> IF u \in us THEN sfw[u] + Count(e.uids, u) ELSE sfw[u]]
-         /\ errs' = errs \cup E(e.queue \in sreg, "C20.Routing")
-               \cup UNION {E(Needs(u), "C20.Routing")
-                           \cup E(Rq(u).rid \in {e.queue, "*"}, "C20.Routing")
-                           \cup E(sfw[u] = 0 /\ Count(e.uids, u) = 1, "C20.Routing")
-                           \cup E(u \in sarr, "C20.Routing") : u \in us}
-         /\ UNCHANGED <<sreg, sloc, sfail, sarr>>
-    [] e.ev = "SLocal" ->
-         /\ sloc' = sloc \cup {e.uid}
-         /\ errs' = errs \cup E(~Needs(e.uid), "C20.Routing")
-         /\ UNCHANGED <<sreg, sfw, sfail, sarr>>
-    [] e.ev = "SFail" ->
-         /\ sfail' = sfail \cup {e.uid} /\ errs' = errs
-         /\ UNCHANGED <<sreg, sfw, sloc, sarr>>
-    [] e.ev = "SEnd" ->
-         LET bl == SeqSet(e.backlog) qs == SeqSet(e.queues)
-             kept(u) == u \in bl /\ Rq(u).rid \notin qs /\ ~(Rq(u).rid = "*" /\ qs # {})
-         IN
-         /\ errs' = errs \cup UNION {
-                IF Needs(u)
-                THEN E(u \notin sloc, "C20.Routing")
-                     \cup E((sfw[u] = 1 /\ u \notin bl) \/ (sfw[u] = 0 /\ (u \in sfail \/ kept(u))),
-                            "C20.Routing")
-                ELSE E(sfw[u] = 0 /\ u \notin bl, "C20.Routing")
-                     \cup E(u \in sloc \/ u \in sfail, "C20.Routing") : u \in sarr}
-         /\ UNCHANGED <<sreg, sfw, sloc, sfail, sarr>>
+  LET us == IF e.ev \in {"SArrive", "SFwd", "SCancelReq", "SCancelDone"} THEN SeqSet(e.uids) ELSE {}
+      bf == IF e.ev \in {"SCancelReq", "SCancelDone"} THEN SeqSet(e.before) ELSE {}
+  IN
+  /\ sarr'   = IF e.ev = "SArrive" THEN sarr \cup us ELSE sarr
+  /\ sreg'   = IF e.ev = "SReg" THEN sreg \cup {e.queue}
+               ELSE IF e.ev = "SUnreg" THEN sreg \ {e.queue} ELSE sreg
+  /\ sfw'    = IF e.ev = "SFwd"
+               THEN [u \in Uids |-> IF u \in us THEN sfw[u] + Count(e.uids, u) ELSE sfw[u]] ELSE sfw
+  /\ sloc'   = IF e.ev = "SLocal" THEN sloc \cup {e.uid} ELSE sloc
+  /\ sfail'  = IF e.ev = "SFail" THEN sfail \cup {e.uid} ELSE sfail
+  /\ snamed' = IF e.ev = "SCancelReq" THEN snamed \cup us ELSE snamed
+  /\ scn'    = IF e.ev = "SCancelReq" THEN scn \cup (us \cap bf) ELSE scn
+  /\ scanc'  = IF e.ev = "SCancel" THEN [scanc EXCEPT ![e.uid] = @ + 1] ELSE scanc
+  /\ errs' = errs \cup
+     (CASE e.ev = "SFwd" ->
+            E(e.queue \in sreg, "C20.Routing")
+            \cup UNION {E(Needs(u), "C20.Routing")
+                        \cup E(Rq(u).rid \in {e.queue, "*"}, "C20.Routing")
+                        \cup E(sfw[u] = 0 /\ Count(e.uids, u) = 1, "C20.Routing")
+                        \cup E(u \in sarr, "C20.Routing")
+                        \cup E(u \notin scn, "C08.NamedRelayed") : u \in us}
+        [] e.ev = "SLocal" -> E(~Needs(e.uid), "C20.Routing")
+        [] e.ev = "SCancel" ->
+            E(e.uid \in snamed, "C08.CanceledNotNamed") \cup E(scanc[e.uid] = 0, "C08.CanceledTwice")
+        [] e.ev = "SCancelDone" ->
+            LET af == SeqSet(e.after) IN
+                 UNION {E(u \notin af, "C08.NamedStillCached")
+                        \cup E(scanc[u] = 1, "C08.NamedNotCanceled") : u \in us \cap bf}
+            \cup UNION {E(u \in af, "C08.BystanderDropped")
+                        \cup E(scanc[u] = 0, "C08.BystanderCanceled") : u \in bf \ us}
+            \cup E(af \subseteq bf /\ Len(e.after) = Cardinality(af), "C08.CacheCorrupted")
+        [] e.ev = "SEnd" ->
+            LET bl == SeqSet(e.backlog) qs == SeqSet(e.queues)
+                kept(u) == u \in bl /\ Rq(u).rid \notin qs /\ ~(Rq(u).rid = "*" /\ qs # {})
+                gone(u) == scanc[u] >= 1 /\ u \in snamed
+            IN UNION {
+                (IF Needs(u)
+                 THEN E(u \notin sloc, "C20.Routing")
+                      \cup E((sfw[u] = 1 /\ u \notin bl)
+                             \/ (sfw[u] = 0 /\ (u \in sfail \/ kept(u) \/ gone(u))), "C20.Routing")
+                      \cup (IF u \in scn
+                            THEN E(sfw[u] = 0, "C08.NamedRelayed")
+                                 \cup E(scanc[u] = 1, "C08.NamedNotCanceled")
+                            ELSE E(scanc[u] = 0 \/ u \in snamed, "C08.BystanderCanceled")
+                                 \cup E(sfw[u] = 1 \/ u \in sfail \/ kept(u) \/ gone(u),
+                                        "C08.BystanderNotRelayed"))
+                 ELSE E(sfw[u] = 0 /\ u \notin bl, "C20.Routing")
+                      \cup E(u \in sloc \/ u \in sfail \/ gone(u), "C20.Routing")) : u \in sarr}
+        [] OTHER -> {})
 
-IsSched(e) == e.ev \in {"SArrive", "SReg", "SUnreg", "SFwd", "SLocal", "SFail", "SEnd"}
+IsSched(e) == e.ev \in {"SArrive", "SReg", "SUnreg", "SFwd", "SLocal", "SFail", "SEnd",
+                        "SCancelReq", "SCancel", "SCancelDone"}
 
 (* ---- dispatcher contract -------------------------------------------------- *)
 CallErrs(e) ==
@@ -263,9 +278,9 @@ Step ==
           /\ UNCHANGED <<co, gp, held, nput, nback, mvis, tow, disp, rres, truth>>
      ELSE IF T.family = "chain"
      THEN /\ errs' = errs \cup (IF e.ev = "Call" THEN CallErrs(e) ELSE {"X.UnknownEvent"})
-          /\ UNCHANGED <<co, gp, held, nput, nback, mvis, tow, disp, rres, truth, sreg, sfw, sloc, sfail, sarr>>
+          /\ UNCHANGED <<co, gp, held, nput, nback, mvis, tow, disp, rres, truth, sreg, sfw, sloc, sfail, sarr, snamed, scn, scanc>>
      ELSE /\ WorkerStep(e)
-          /\ UNCHANGED <<sreg, sfw, sloc, sfail, sarr>>
+          /\ UNCHANGED <<sreg, sfw, sloc, sfail, sarr, snamed, scn, scanc>>
   /\ UNCHANGED tid
 
 Finish ==
@@ -273,7 +288,7 @@ Finish ==
   /\ fin' = TRUE
   /\ PrintT(<<"RESULT", T.tid, errs>>)
   /\ UNCHANGED <<tid, l, co, gp, held, nput, nback, mvis, tow, disp, rres, truth,
-                 sreg, sfw, sloc, sfail, sarr, errs>>
+                 sreg, sfw, sloc, sfail, sarr, snamed, scn, scanc, errs>>
 
 Next == Step \/ Finish
 Spec == Init /\ [][Next]_vars
